@@ -422,6 +422,11 @@ def gen_c13(rng, n):
 
 # ---- C05 / C06 / C17 ----
 def gen_find_zones(rng, nzones, findn=False):
+    for t in K2_RULES + K1_RULES:
+        yield from gen_rule_zone_session(rng, named_rule(t), with_table=False, do_find=True, do_findn=findn, nprobe=60)
+    for i in range(nzones // 2):
+        r = corpus_rule(i) if i % 3 == 0 else rand_rule(rng)
+        yield from gen_rule_zone_session(rng, r, with_table=(i % 2 == 1), do_find=True, do_findn=findn, nprobe=30)
     for _ in range(nzones):
         z = gen_table_zone(rng, nmax=rng.choice([3, 6, 12, 40]))
         yield from gen_zone_session(rng, z, nprobe=50, do_find=True, do_findn=findn, lookups=not findn)
@@ -452,3 +457,196 @@ def gen_c14(rng, n):
             yield {"op": "dtcmp", "a": {"a": {"t": W(t), "ns": ns, "type": ty}, "b": {"t": W(max(I64MIN, min(I64MAX, t2))), "ns": ns2, "type": rand_type(rng, "wide")}}}
         else:
             yield {"op": "localtime", "a": {"u": W(t), "ns": ns}}
+
+
+# =============================================================================================
+# rules (generator-side calendar arithmetic: only used to aim probes and to build consistent zones)
+
+def is_leap(y):
+    return y % 400 == 0 or (y % 4 == 0 and y % 100 != 0)
+
+
+def dim(y, m):
+    return [31, 29 if is_leap(y) else 28, 31, 30, 31, 30, 31, 31, 30, 31, 30, 31][m - 1]
+
+
+def rule_day_days(nd, y):
+    """days since 1970-01-01 of rule day nd in year y"""
+    jan1 = days_from_civil(y, 1, 1)
+    if nd[0] == "J":
+        return jan1 + nd[1] - 1 + (1 if is_leap(y) and nd[1] >= 60 else 0)
+    if nd[0] == "Z":
+        return jan1 + nd[1]
+    _, m, w, d = nd
+    first = days_from_civil(y, m, 1)
+    wd = (first + 4) % 7
+    d1 = 1 + (d - wd) % 7
+    dd = d1 + 7 * (w - 1)
+    if dd > dim(y, m):
+        dd -= 7
+    return first + dd - 1
+
+
+def rule_S(r, y):
+    return rule_day_days(r["sd"], y) * DAY + r["st"] - r["std"]["off"]
+
+
+def rule_E(r, y):
+    return rule_day_days(r["ed"], y) * DAY + r["et"] - r["dst"]["off"]
+
+
+def rand_ruleday(rng):
+    k = rng.random()
+    if k < 0.3:
+        return ["J", rng.choice([1, 59, 60, 61, 365, rng.randint(1, 365)])]
+    if k < 0.6:
+        return ["Z", rng.choice([0, 58, 59, 60, 364, 365, rng.randint(0, 365)])]
+    return ["M", rng.randint(1, 12), rng.choice([1, 2, 3, 4, 5, 5]), rng.randint(0, 6)]
+
+
+def near_ruleday(rng, nd):
+    """a rule day within about +-20 days of nd (approximately)"""
+    approx = nd[1] if nd[0] != "M" else (nd[1] - 1) * 30 + nd[2] * 7
+    t = max(1, min(364, approx + rng.randint(-20, 20)))
+    k = rng.random()
+    if k < 0.35:
+        return ["J", max(1, t)]
+    if k < 0.7:
+        return ["Z", t]
+    return ["M", min(12, t // 30 + 1), rng.randint(1, 5), rng.randint(0, 6)]
+
+
+def rand_rule(rng, near=None):
+    so = rng.choice([0, 3600, -18000, 36000, -89999, 93599, rng.randint(-89999, 93599)])
+    do = rng.choice([so + 3600, so + 3600, so - 3600, so + 1800, so, rng.randint(-89999, 93599)])
+    do = max(-89999, min(93599, do))
+    sd = rand_ruleday(rng)
+    if near is None:
+        near = rng.random() < 0.5
+    ed = near_ruleday(rng, sd) if near else rand_ruleday(rng)
+    def tm():
+        k = rng.random()
+        if k < 0.45:
+            return rng.choice([0, 3600, 7200, 10800, 86400, 90000, -3600, -1, 1])
+        if k < 0.75:
+            return rng.choice([-1, 1]) * rng.randint(500000, 604799)
+        return rng.randint(-604799, 604799)
+    return {"k": "alt", "std": {"off": so, "dst": 0, "des": B(rng.choice(["EST", "CET", "STD", "-03"]))},
+            "dst": {"off": do, "dst": 1, "des": B(rng.choice(["EDT", "CEST", "DST", "+1230"]))}, "sd": sd, "st": tm(), "ed": ed, "et": tm()}
+
+
+CORPUS_RULES = [
+    ("EST", -18000, "EDT", -14400, ["M", 3, 2, 0], 7200, ["M", 11, 1, 0], 7200),
+    ("CET", 3600, "CEST", 7200, ["M", 3, 5, 0], 7200, ["M", 10, 5, 0], 10800),
+    ("AEST", 36000, "AEDT", 39600, ["M", 10, 1, 0], 7200, ["M", 4, 1, 0], 10800),
+    ("NZST", 43200, "NZDT", 46800, ["M", 9, 5, 0], 7200, ["M", 4, 1, 0], 10800),
+    ("IST", 3600, "GMT", 0, ["M", 10, 5, 0], 7200, ["M", 3, 5, 0], 3600),            # negative DST (Europe/Dublin)
+    ("-03", -10800, "-02", -7200, ["M", 3, 5, 0], -7200, ["M", 10, 5, 0], -3600),   # America/Godthab (v3)
+    ("IST", 7200, "IDT", 10800, ["M", 3, 4, 4], 93600, ["M", 10, 5, 0], 7200),      # Asia/Jerusalem (v3: 26h)
+    ("+01", 3600, "+00", 0, ["Z", 0], 0, ["J", 365], 90000),                         # all-year "DST"
+    ("EST", -18000, "EDT", -14400, ["Z", 0], 0, ["J", 365], 90000),                  # all-year DST (America/...)
+    ("<-04>", -14400, "<-03>", -10800, ["M", 9, 1, 6], 86400, ["M", 4, 1, 6], 86400),  # America/Santiago
+    ("EET", 7200, "EEST", 10800, ["M", 3, 4, 4], 259200 - 86400 * 2, ["M", 10, 4, 4], 180000 - 86400),  # Gaza-like
+]
+
+
+# rules on which the current tree is known to misbehave (known findings K2 and K1): kept in every run so that the
+# KNOWN-FINDING lines stay visible and a change in their behaviour is noticed
+K2_RULES = [
+    ("EST", -18000, "EDT", -14400, ["Z", 59], 90000, ["J", 60], 7200),       # EST5EDT,59/25,J60 : S = E in leap years
+    ("STD", 0, "DST", 3600, ["J", 365], 90000, ["Z", 365], 10800),           # coincide in common years
+]
+K1_RULES = [
+    ("AAA", 56797, "BBB", -24759, ["J", 8], -417523, ["Z", 363], 599731),    # overlapping DST periods
+    ("STD", 0, "DST", 3600, ["J", 8], -417523, ["Z", 363], 599731),
+]
+
+
+def named_rule(t):
+    sn, so, dn, do, sd, st, ed, et = t
+    return {"k": "alt", "std": {"off": so, "dst": 0, "des": B(sn)}, "dst": {"off": do, "dst": 1, "des": B(dn)}, "sd": sd, "st": st, "ed": ed, "et": et}
+
+
+def corpus_rule(i):
+    sn, so, dn, do, sd, st, ed, et = CORPUS_RULES[i % len(CORPUS_RULES)]
+    clean = lambda s: s.strip("<>")
+    return {"k": "alt", "std": {"off": so, "dst": 0, "des": B(clean(sn))}, "dst": {"off": do, "dst": 1, "des": B(clean(dn))}, "sd": sd, "st": st, "ed": ed, "et": et}
+
+
+def rule_probes(rng, r, nyears=3):
+    pts = set()
+    for _ in range(nyears):
+        y = rng.choice([rng.randint(1900, 2500), rng.randint(-3000, 5000), rng.randint(I32MIN + 3, I32MAX - 3), rng.choice([2000, 2004, 2100, 1970, 1969, 2399, 2400])])
+        for yy in (y - 1, y, y + 1):
+            if not (I32MIN + 2 <= yy <= I32MAX - 2):
+                continue
+            for base in (rule_S(r, yy), rule_E(r, yy)):
+                for dl in (-1, 0, 1):
+                    pts.add(base + dl)
+            ny = days_from_civil(yy, 1, 1) * DAY
+            for dl in (-1, 0, 1, -3600, 3600, -DAY, DAY):
+                pts.add(ny + dl)
+    # the year guard
+    for yy in (I32MIN + 1, I32MIN + 2, I32MIN + 3, I32MAX - 3, I32MAX - 2, I32MAX - 1):
+        if rng.random() < 0.15:
+            pts.add(days_from_civil(yy, rng.choice([1, 6, 12]), 15) * DAY)
+    return [p for p in pts if MINT - 10 <= p <= MAXT + 10]
+
+
+def gen_rule_zone_session(rng, r, with_table=False, do_find=True, do_findn=False, nprobe=40):
+    """A rule-only zone, or a table ending at a rule-generated transition (the table/rule junction)."""
+    ty = [dict(r["std"]), dict(r["dst"])]
+    tr = []
+    if with_table:
+        y = rng.randint(1950, 2100)
+        # last table transition at/near a start or end instant of year y, with the type the rule prescribes just after it
+        kind = rng.choice(["S", "E"])
+        t = rule_S(r, y) if kind == "S" else rule_E(r, y)
+        t += rng.choice([0, 0, 0, 1, -1, 86400, -86400, 3 * 86400])
+        # a few earlier transitions
+        t0 = t - rng.randint(10**6, 10**8)
+        tr = [[t0, rng.randrange(2)], [t, 1 if kind == "S" else 0]]
+    z = {"tr": tr, "ty": ty, "lp": [], "rule": r}
+    yield zone_event(z)
+    pts = rule_probes(rng, r)
+    if tr:
+        pts += [tr[-1][0] + dl for dl in (-1, 0, 1, 3600, -3600)]
+    rng.shuffle(pts)
+    offs = [r["std"]["off"], r["dst"]["off"]]
+    for u in pts[:nprobe]:
+        yield {"op": "lookup", "a": {"u": W(u), "via": "ref"}}
+        if do_find and MINT + 2**32 < u < MAXT - 2**32:
+            L = u + rng.choice(offs) + rng.choice([-1, 0, 0, 1])
+            f = fields_of_local(L, 0)
+            if do_findn and rng.random() < 0.5:
+                f["n"] = rng.randint(0, 4)
+                yield {"op": "findn", "a": f}
+            else:
+                yield {"op": "find", "a": f}
+
+
+def gen_c04(rng, nrules, do_find=False):
+    for t in K2_RULES + K1_RULES:
+        yield from gen_rule_zone_session(rng, named_rule(t), with_table=False, do_find=do_find, nprobe=60)
+    for i in range(nrules):
+        r = corpus_rule(i) if i % 4 == 0 else rand_rule(rng)
+        yield from gen_rule_zone_session(rng, r, with_table=False, do_find=do_find)
+
+
+def gen_c11(rng, n):
+    for i in range(n):
+        r = rand_rule(rng, near=rng.random() < 0.8)
+        k = rng.random()
+        if k < 0.12:
+            r[rng.choice(["std", "dst"])]["off"] = rng.choice([-90000, -90001, 93600, 93601, I32MAX, I32MIN + 1])
+        elif k < 0.24:
+            r[rng.choice(["st", "et"])] = rng.choice([604800, -604800, 604801, I32MAX, I32MIN])
+        a = {kk: r[kk] for kk in ("std", "dst", "sd", "st", "ed", "et")}
+        yield {"op": "rule", "a": a}
+    for _ in range(n // 10):
+        k = rng.choice(["J", "Z", "M"])
+        if k == "M":
+            d = ["M", rng.randint(0, 14), rng.randint(0, 7), rng.randint(0, 8)]
+        else:
+            d = [k, rng.choice([0, 1, 365, 366, 367, 65535, rng.randint(0, 400)])]
+        yield {"op": "ruleday", "a": {"d": d}}
